@@ -384,23 +384,20 @@ theorem roots_cons (f : Frame) (fs : List Frame) (b : List Item) (id : Nat) :
   simp only [rootsOf, cnt_append, List.flatMap_cons, Frame.roots, List.length_append]
   constructor <;> omega
 
-theorem droppedOf_clean {k : Nat} {fs : List Frame} (h : ∀ f ∈ fs.take k, slotItems f.own = []) : droppedOf k fs = [] := by
-  simp only [droppedOf, List.flatMap_eq_nil_iff]
-  exact h
-
-/-- handleException: unloading `k` contexts; what their evaluation stacks held is not discounted -/
+/-- handleException: unloading `k` contexts; the evaluation stack a dropped context owns is cleared, so
+nothing stays counted that is not reachable: the leaked list does not change -/
 theorem unwindFrames_inv (b : List Item) : ∀ (k : Nat) (fs : List Frame) (c : Ctr) (lk : List Item) (fs' : List Frame) (c' : Ctr),
     InvC c (fun id => cnt id (rootsOf fs b) + cnt id lk) ((rootsOf fs b).length + lk.length) →
     unwindFrames k fs c = some (fs', c') →
-    ∃ dr : List Item, InvC c' (fun id => cnt id (rootsOf fs' b) + cnt id (lk ++ dr)) ((rootsOf fs' b).length + (lk ++ dr).length) ∧
-      c'.heap.length = c.heap.length ∧ dr = droppedOf k fs := by
+    InvC c' (fun id => cnt id (rootsOf fs' b) + cnt id lk) ((rootsOf fs' b).length + lk.length) ∧
+      c'.heap.length = c.heap.length := by
   intro k
   induction k with
   | zero =>
     intro fs c lk fs' c' inv h
     simp only [unwindFrames, Option.some.injEq, Prod.mk.injEq] at h
     obtain ⟨rfl, rfl⟩ := h
-    exact ⟨[], by simpa using inv, rfl, by simp [droppedOf]⟩
+    exact ⟨inv, rfl⟩
   | succ k ih =>
     intro fs c lk fs' c' inv h
     cases fs with
@@ -408,24 +405,26 @@ theorem unwindFrames_inv (b : List Item) : ∀ (k : Nat) (fs : List Frame) (c : 
     | cons f t =>
       simp only [unwindFrames] at h
       have hr := fun id => roots_cons f t b id
-      obtain ⟨i1, l1⟩ := unload_inv (g := fun id => cnt id (rootsOf t b) + cnt id (lk ++ slotItems f.own))
-        (m := (rootsOf t b).length + (lk ++ slotItems f.own).length) f
-        (inv.congr (by intro id; have := (hr id).1; simp only [cnt_append]; omega)
-          (by have := (hr 0).2; simp only [List.length_append]; omega))
-      obtain ⟨dr, i2, l2, hd⟩ := ih t (unloadSlots f c) (lk ++ slotItems f.own) fs' c' i1 h
-      refine ⟨slotItems f.own ++ dr, by simpa [List.append_assoc] using i2, by rw [l2, l1], ?_⟩
-      rw [hd]; simp [droppedOf]
+      -- first the slots, the own stack still counted
+      obtain ⟨i1, l1⟩ := unload_inv (g := fun id => (cnt id (rootsOf t b) + cnt id lk) + cnt id (slotItems f.own).reverse)
+        (m := ((rootsOf t b).length + lk.length) + (slotItems f.own).reverse.length) f
+        (inv.congr (by intro id; have := (hr id).1; simp only [cnt_reverse]; omega)
+          (by have := (hr 0).2; simp only [List.length_reverse]; omega))
+      -- then the own stack is released (Stack.Clear)
+      obtain ⟨i2, ss⟩ := inv_remAll (slotItems f.own).reverse i1
+      obtain ⟨i3, l3⟩ := ih t _ lk fs' c' i2 h
+      exact ⟨i3, by rw [l3, ss.1, l1]⟩
 
 theorem unwind_inv {s s' : St} {lk : List Item} (x : Item) (k : Nat) (c : Bool) (inv : InvS s lk) (hx : WfItem s.c.heap x)
     (h : unwind s x k c = some s') :
-    ∃ lk', InvS s' lk' ∧ s.c.heap.length ≤ s'.c.heap.length ∧ lk' = lk ++ droppedOf k s.frames := by
+    InvS s' lk ∧ s.c.heap.length ≤ s'.c.heap.length := by
   simp only [unwind] at h
   cases hu : unwindFrames k s.frames s.c with
   | none => simp [hu] at h
   | some p =>
     obtain ⟨fs, c1⟩ := p
     simp only [hu] at h
-    obtain ⟨dr, i1, l1, hd⟩ := unwindFrames_inv s.base k s.frames s.c lk fs c1 inv.ctr hu
+    obtain ⟨i1, l1⟩ := unwindFrames_inv s.base k s.frames s.c lk fs c1 inv.ctr hu
     split at h
     · cases h
     · have hx1 : WfItem c1.heap x := wfItem_of_len hx (by rw [l1]; exact Nat.le_refl _)
@@ -433,7 +432,7 @@ theorem unwind_inv {s s' : St} {lk : List Item} (x : Item) (k : Nat) (c : Bool) 
       | false =>
         simp only [Bool.false_eq_true, if_false, Option.some.injEq] at h
         subst h
-        refine ⟨lk ++ dr, ⟨i1, ?_⟩, by simp [l1], by rw [hd]⟩
+        refine ⟨⟨i1, ?_⟩, by simp [l1]⟩
         intro y hy
         simp only [Option.some.injEq] at hy
         rw [← hy]; exact hx1
@@ -441,10 +440,11 @@ theorem unwind_inv {s s' : St} {lk : List Item} (x : Item) (k : Nat) (c : Bool) 
         simp only [if_true, Option.some.injEq] at h
         subst h
         let s1 : St := { s with frames := fs, c := c1 }
-        have invs1 : InvS s1 (lk ++ dr) := ⟨i1, fun y hy => wfItem_of_len (inv.exc y hy) (by simp [s1, l1])⟩
+        have invs1 : InvS s1 lk := ⟨i1, fun y hy => wfItem_of_len (inv.exc y hy) (by simp [s1, l1])⟩
         obtain ⟨i2, ss⟩ := push_inv invs1.toW (x := x) hx1
-        have i3 := invC_setW (s := s1) (lk := lk ++ dr) (lk2 := []) (w' := s1.w.push x) (i2.congr (by intro id; simp) (by simp))
-        refine ⟨lk ++ dr ++ [], ⟨i3, by intro y hy; cases hy⟩, ?_, by rw [hd]; simp⟩
+        have i3 := invC_setW (s := s1) (lk := lk) (lk2 := []) (w' := s1.w.push x) (i2.congr (by intro id; simp) (by simp))
+        rw [List.append_nil] at i3
+        refine ⟨⟨i3, by intro y hy; cases hy⟩, ?_⟩
         show s.c.heap.length ≤ (s1.w.push x).c.heap.length
         rw [ss.1]; simp [s1, St.w, l1]
 
